@@ -448,8 +448,8 @@ func (e *Enc) Text() string {
 	return sb.String()
 }
 
-func (e *Enc) PsiTerm() string     { return and(e.Psi) }
-func (e *Enc) NoFailTerm() string  { return and(e.NoFail) }
+func (e *Enc) PsiTerm() string      { return and(e.Psi) }
+func (e *Enc) NoFailTerm() string   { return and(e.NoFail) }
 func (e *Enc) NoCancelTerm() string { return "(not cancelled)" }
 
 // SomeFailure: some invoked provider failed.
